@@ -1,5 +1,5 @@
 import ScVerif.Base.Line
-import ScVerif.C02.Lin
+import ScVerif.C02.Time
 /-!
 Driver handler for C02.  Messages are pairs of integers `a.b` (`durationpb.Duration{seconds, nanos}` on the
 Go side, the empty message is `0.0`), so that update masks can select one field and leave the other.
@@ -18,7 +18,9 @@ Request:  `run <fixed:0|1> <clock> <cands> <init> <progs> <sched>`
          to the old b + 1; writeTime `-` or a number
 * sched  `-` or comma separated thread ids; one entry = one atomic step of that thread
 
-Answer: `T0=[r,r,...]|T1=[...]|store=id:a.b@t,...|log=<n>|pc=<per thread i/c/m/d>|rng=<n>|lin=<t.n,t.n,...>` with
+Answer: `T0=[r,r,...]|T1=[...]|store=id:a.b@t,...|log=<n>|pc=<per thread i/c/m/d>|rng=<n>|rt=<t.n:i-r,...>|lin=<t.n,t.n,...>`
+with `rt` the steps (clock instants) at which each finished call was invoked and responded (`Times.invT/respT` of
+`trun`, the real time of the theorem `C02_linearization_respects_step_order`) and
 `lin` the linearization sequence of the theorem `C02_linearizable` (call `n` of thread `t`; refused calls of one
 index in the order they finished),
 r = `ok:<a.b>` | `ok:<a.b>#<generated id>` | `ok:nil` | `err:<Code>`, `@t` the stored change time.
@@ -158,11 +160,15 @@ def handle (toks : List String) : String :=
     | some fixed, some clock, some cands, some init, some progs, some sched =>
       let s₀ : SStore P := fun i => (init.find? (fun kv => kv.1 == i)).map (·.2)
       let env : Env := ⟨clock, candOf cands⟩
-      let c := run fixed env (initCfg s₀ (fun t => progs.getD t [])) sched
+      let cg := trun fixed env (initCfg s₀ (fun t => progs.getD t [])) {} sched
+      let c := cg.1
+      let g := cg.2
       let ths := (List.range progs.length).map (fun t =>
         s!"T{t}=[" ++ ",".intercalate ((c.threads t).done.map (fun r => showRes r.op r.res)) ++ "]")
       "|".intercalate ths ++ s!"|store={showStore c}|log={c.log.length}|pc=" ++
-        "".intercalate ((List.range progs.length).map (fun t => showPc (c.threads t).pc)) ++ s!"|rng={c.rng}|lin=" ++
+        "".intercalate ((List.range progs.length).map (fun t => showPc (c.threads t).pc)) ++ s!"|rng={c.rng}|rt=" ++
+        ",".intercalate (((List.range progs.length).map (fun t =>
+          (List.range (c.threads t).done.length).map (fun n => s!"{t}.{n}:{g.invT t n}-{g.respT t n}"))).flatten) ++ "|lin=" ++
         ",".intercalate ((linSeq s₀ c.log c.refusedAt).map (fun ev => s!"{ev.tid}.{ev.idx}"))
     | _, _, _, _, _, _ => "!bad-op"
   | _ => "!bad-op"
